@@ -19,6 +19,8 @@ type Ctx struct {
 	Tagger func(c *Config, sc *Scenario, in *Rec) []string
 	// NonTrivial decides whether a case reached the decision the property is about.
 	NonTrivial func(sc *Scenario, o *Obs) bool
+	// After is called with the id of every executed case (Go-side oracles, extra tallies).
+	After func(id int, sc *Scenario, o *Obs, desc map[string]any)
 }
 
 // AddConfig registers a configuration; cases refer to it by the returned name
@@ -87,7 +89,10 @@ func (x *Ctx) Emit(stream string, cfgName string, rt *Router, sc *Scenario) {
 		desc["panic"] = o.Res.PanicMsg
 		run.Tally("PANIC:" + firstWords(o.Res.PanicMsg))
 	}
-	run.Add(stream, CaseTerm(cfgName, rt.Cfg, sc.Ing, sc.Desc.L4, &o), Key(cfgName, sc.Ing, raw), nt, desc, tags...)
+	id := run.Add(stream, CaseTerm(cfgName, rt.Cfg, sc.Ing, sc.Desc.L4, &o), Key(cfgName, sc.Ing, raw), nt, desc, tags...)
+	if x.After != nil {
+		x.After(id, sc, &o, desc)
+	}
 }
 
 func firstWords(s string) string {
